@@ -27,8 +27,10 @@ SUITES = {
     "C01": [("c01", ("check", "day schedule:"))],
     "C02": [("c02", ("check", "stream:"))],
     "C03": [("c03", ("check", ""))],
-    "C04": [("c14", ("panic", "")), ("c01", ("panic", "")), ("c03", ("panic", "")), ("c02", ("panic", "")), ("c08", ("panic", "")), ("c16", ("panic", ""))],
+    "C04": [("c14", ("panic", "")), ("c01", ("panic", "")), ("c03", ("panic", "")), ("c02", ("panic", "")), ("c08", ("panic", "")), ("c16", ("panic", "")), ("c07", ("panic", "")), ("c09", ("panic", ""))],
+    "C07": [("c07", ("check", "meaning:"))],
     "C08": [("c08", ("check", "bounds:"))],
+    "C13": [("c07", ("check", "normalize:"))],
     "C09": [("c09", ("check", "zone:"))],
     "C14": [("c14", ("check", ""))],
     "C16": [("c16", ("check", "bound:"))],
@@ -465,6 +467,10 @@ FUNCTIONS = {
             "opening_hours::schedule::IntoIter::next", "opening_hours_syntax::rules::OpeningHoursExpression::is_constant", "opening_hours::filter::date_filter::*::next_change_hint (concrete dates)"],
     "C03": ["opening_hours::OpeningHours::{state, is_open, is_closed, is_unknown, next_change, iter_from}", "opening_hours::opening_hours::TimeDomainIterator::{new, next, consume_until_next_kind}"],
     "C04": ["every function reached by the suites c14, c01, c02, c03, c08, c16 (a panic on any feasible path is a counterexample)"],
+    "C07": ["opening_hours_syntax::rules::OpeningHoursExpression::normalize", "opening_hours_syntax::normalize::{ruleseq_to_selector, canonical_to_seq}",
+            "opening_hours_syntax::normalize::paving::{Dim::set, Dim::is_val, Dim::pop_filter, Dim::cut_at}", "opening_hours_syntax::normalize::canonical::MakeCanonical::*",
+            "opening_hours_syntax::normalize::frame::{Frame::to_range_strict, Frame::to_range_inclusive, Bounded::split_inverted_range}", "opening_hours::OpeningHours::schedule_at"],
+    "C13": ["opening_hours_syntax::rules::OpeningHoursExpression::normalize (twice)", "PartialEq on OpeningHoursExpression", "opening_hours_syntax::normalize::*"],
     "C08": ["opening_hours::OpeningHours::{state, next_change, iter_range, iter_range_naive, next_change_hint, schedule_at}"],
     "C09": ["opening_hours::localization::TzLocation::{naive, datetime}", "opening_hours::OpeningHours::<TzLocation<_>>::{state, iter_range}"],
     "C16": ["opening_hours::opening_hours::TimeDomainIterator::{next, consume_until_next_kind} with Context::approx_bound_interval_size"],
